@@ -72,7 +72,7 @@ def check(ctx):
     ip2.sqrt_witnesses = [gamma * gamma + 1]           # candidate for sqrt(discriminant); verified by squaring
     assert sign_of(gamma * gamma + 1) == "pos"
     lap = LinOp("psi_laplacian", apply=lambda I, x: Rat.const(T2, 0))
-    ip2.branch_policy = lambda test, fr: False if any(isinstance(n, ast.Compare) for n in ast.walk(test)) else None
+    ip2.branch_policy = _accepting
     ret = ip2.call_function(f, [], dict(psi=one, abs_sq_psi=one, mu=Rat.const(T2, 0), epsilon=one, gamma=gamma,
                                         u=u, dt=dt, psi_laplacian=lap))
     ok = isinstance(ret, tuple) and len(ret) == 2 and isinstance(ret[0], Rat)
@@ -166,3 +166,15 @@ def _is_product_with_sum(e):
             if isinstance(side, ast.Call) and isinstance(side.func, ast.Name) and side.func.id == "sum":
                 return True
     return False
+
+
+def _accepting(test, fr):
+    """branch policy of the psi solve: follow the path on which no discriminant is negative, whichever way the test is spelled
+    (`if any(d < 0): refuse` / `if not any(d < 0): answer`)"""
+    if not any(isinstance(n, ast.Compare) for n in ast.walk(test)):
+        return None
+    nots = 0
+    while isinstance(test, ast.UnaryOp) and isinstance(test.op, ast.Not):
+        nots += 1
+        test = test.operand
+    return nots % 2 == 1
